@@ -7,7 +7,10 @@ from vv.core import Result
 ID = 'C03'
 CASES = {'quick': 700, 'thorough': 50000}
 HANG_IS_VIOLATION = True
-RULE = ('Hypothesis draws 0..4 scripted processes (empty and all-quiet '
+RULE = ('(one case in twelve: processes that each delete their own compartment '
+        'after a few invocations, so that a call is left without any process '
+        'half-way; every call must land on start + interval) '
+        'Hypothesis draws 0..4 scripted processes (empty and all-quiet '
         'composites included) whose timestep and condition answers are scripts '
         'indexed by poll or by invocation (adaptive: may shrink or grow), '
         'precisions None/1/2/5 with timesteps on the grid, an initial global '
@@ -26,14 +29,121 @@ ASSUMPTIONS = [
 ]
 
 
+@st.composite
+def vanishing(draw):
+    """Every process deletes its own compartment after a few invocations: in
+    the middle of some call the composite is left without any process, and
+    the calls must still land on start + interval."""
+    agents = [{'ts': draw(st.integers(1, 8)) * 0.25,
+               'die_after': draw(st.integers(1, 4))}
+              for _ in range(draw(st.integers(1, 3)))]
+    calls = [{'op': draw(st.sampled_from(['run_for', 'update'])),
+              'interval': draw(st.integers(1, 24)) * 0.25,
+              'force': draw(st.booleans())}
+             for _ in range(draw(st.integers(1, 4)))]
+    for c in calls:
+        if c['op'] == 'update':
+            c['force'] = True
+    return {'kind': 'vanish', 'agents': agents, 'calls': calls,
+            'step': draw(st.booleans())}
+
+
+@st.composite
+def strategy_(draw, tier):
+    if draw(st.integers(0, 11)) == 0:
+        return draw(vanishing())
+    return draw(sched.sched_specs(quiet=True, adaptive=True, empty_ok=True,
+                                  all_quiet_ok=True,
+                                  precisions=(None, None, None, 1, 2, 5),
+                                  state_cond=True, deep=tier == 'thorough'))
+
+
 def strategy(tier):
-    return sched.sched_specs(quiet=True, adaptive=True, empty_ok=True,
-                             all_quiet_ok=True,
-                             precisions=(None, None, None, 1, 2, 5),
-                             state_cond=True, deep=tier == 'thorough')
+    return strategy_(tier)
+
+
+def run_vanish(spec):
+    from vivarium.core.engine import Engine
+    from vivarium.core.process import Process, Step
+    res = Result()
+    res.label('kind.vanish')
+    seen = []           # global times seen inside callbacks
+
+    class Mortal(Process):
+        defaults = {'die_after': 1, 'key': 'a'}
+
+        def __init__(self, parameters=None):
+            super().__init__(parameters)
+            self.n = 0
+
+        def ports_schema(self):
+            return {'x': {'_default': 0, '_emit': True},
+                    'agents': {'*': {}}}
+
+        def next_update(self, timestep, states):
+            self.n += 1
+            if holder.get('engine') is not None:
+                seen.append(holder['engine'].global_time)
+            if self.n >= self.parameters['die_after']:
+                return {'agents': {'_delete': [self.parameters['key']]}}
+            return {'x': 1}
+
+    class Watch(Step):
+        def ports_schema(self):
+            return {'n': {'_default': 0, '_emit': True}}
+
+        def next_update(self, timestep, states):
+            if holder.get('engine') is not None:
+                seen.append(holder['engine'].global_time)
+            return {'n': 1}
+
+    holder = {}
+    processes, topology = {'agents': {}}, {'agents': {}}
+    for i, a in enumerate(spec['agents']):
+        key = 'a%d' % i
+        processes['agents'][key] = {'mortal': Mortal({
+            'time_step': a['ts'], 'die_after': a['die_after'], 'key': key})}
+        topology['agents'][key] = {'mortal': {'x': ('x',),
+                                              'agents': ('..',)}}
+    kwargs = dict(processes=processes, topology=topology, display_info=False)
+    if spec['step']:
+        kwargs.update(steps={'watch': Watch()}, flow={'watch': []})
+        kwargs['topology']['watch'] = {'n': ('n',)}
+    try:
+        from vv.core import watchdog
+        engine = Engine(**kwargs)
+        holder['engine'] = engine
+        t = 0
+        for i, call in enumerate(spec['calls']):
+            if call['op'] == 'update':
+                engine.update(call['interval'])
+            else:
+                engine.run_for(call['interval'], force_complete=call['force'])
+            t += call['interval']
+            if engine.global_time != t:
+                res.fail('landing', 'call %d: %s(%r) returned at global time '
+                         '%r, expected %r (processes left: %r)'
+                         % (i, call['op'], call['interval'],
+                            engine.global_time, t,
+                            sorted(engine.process_paths)), 'engine.py:run_for')
+                break
+        if seen != sorted(seen):
+            res.fail('clock.backwards', 'global times seen in callbacks: %r'
+                     % (seen,), 'engine.py:run_for')
+        if not engine.process_paths:
+            res.label('vanish.no_process_left')
+            res.nontrivial = True
+    except Exception as e:
+        from vv.core import innermost_is_harness, exc_violation
+        if innermost_is_harness(e):
+            raise
+        res.violations.append(exc_violation(e))
+    return res
 
 
 def run_case(spec):
+    if spec.get('kind') == 'vanish':
+        return run_vanish(spec)
     res = Result()
     p = spec['precision']
     ctx, engine, failure = sched.execute(spec)
